@@ -56,6 +56,12 @@ func fsChildMain(args []string) int {
 		return 2
 	}
 	ops := args[3:]
+	if mode == "walfv" { // clean reopen of the walfault stream (C10): not traced
+		return walfVerifyMain(dir)
+	}
+	if mode == "walf" {
+		walfBurnCalls(filepath.Dir(dir))
+	}
 	// the first marker lets the parent discard everything strace logged while
 	// it was attaching / the runtime was starting
 	fsMark("start", 0, "call")
@@ -65,6 +71,9 @@ func fsChildMain(args []string) int {
 	}
 	if mode == "fsf" {
 		return fsChildFault(dir, seg, ops)
+	}
+	if mode == "walf" {
+		return walfChildMain(dir, seg, ops)
 	}
 	return fsChildFS(dir, seg, ops)
 }
